@@ -757,7 +757,7 @@ func main() {
 
 	r.Evals(cases.Load() + ne + nd + nl)
 	r.Nontrivial(nontriv.Load() + ne + nd + nl)
-	r.Rule("deterministic enumeration of value x layout{only,first,middle-after-1,middle-after-2,last} x nested field number x surrounding scalar set (x small/large scalar field numbers in the thorough tier); values are pairwise distinct by construction (flavour, name). One case = 3 runs of the real Encoder (exact canary-framed window with a fresh instance, exact window re-using the instance with another pre-fill, larger buffer followed by a sentinel field) compared region by region with key||varint(len b)||b, b = csproto.Marshal(m), plus decoding the oracle bytes with the real Decoder in safe and fast mode (tag, DecodeNested into a fresh message, Offset, owning runtime's Equal, surrounding fields). Non-trivial = nested payload non-empty, or an error / declared-length case. Error cases: failing stubs and naturally failing runtime messages x layouts x field numbers (x modes). Declared-length cases: every D in 0..len(tail)+2 and the 32/64-bit boundary values x minimal/padded length varint x targets x modes.")
+	r.Rule("(a value whose oracle bytes cannot be established although its owning runtime marshals it is handed to EncodeNested directly: error, panic or other bytes = violation) deterministic enumeration of value x layout{only,first,middle-after-1,middle-after-2,last} x nested field number x surrounding scalar set (x small/large scalar field numbers in the thorough tier); values are pairwise distinct by construction (flavour, name). One case = 3 runs of the real Encoder (exact canary-framed window with a fresh instance, exact window re-using the instance with another pre-fill, larger buffer followed by a sentinel field) compared region by region with key||varint(len b)||b, b = csproto.Marshal(m), plus decoding the oracle bytes with the real Decoder in safe and fast mode (tag, DecodeNested into a fresh message, Offset, owning runtime's Equal, surrounding fields). Non-trivial = nested payload non-empty, or an error / declared-length case. Error cases: failing stubs and naturally failing runtime messages x layouts x field numbers (x modes). Declared-length cases: every D in 0..len(tail)+2 and the 32/64-bit boundary values x minimal/padded length varint x targets x modes.")
 	r.Assume("the surrounding scalar encoders (EncodeUInt64/EncodeString/EncodeFixed32) are verified by C01; here they only pin the cursor")
 	r.Assume("instances are never shared between oracle and code under test: cached sizes (generated Size(), protobuf-go size+1 cache) belong to C09")
 	r.Assume("values whose csproto.Marshal/Size/owning-runtime round trip is itself inconsistent are defects of other properties; they are listed in values_skipped_by_precondition (empty on the pinned tree)")
